@@ -74,8 +74,11 @@ func (s c12Store) id() vaa.VAAID {
 
 func (s c12Store) vaa() *vaa.VAA {
 	id := s.id()
-	v := &vaa.VAA{Version: 1, GuardianSetIndex: uint32(s.Var % 3), Timestamp: time.Unix(int64(1000+s.Var), 0), Nonce: uint32(s.Var), Sequence: id.Sequence,
-		ConsistencyLevel: 1, EmitterChain: id.EmitterChain, TargetChain: id.TargetChain, EmitterAddress: id.EmitterAddress, Payload: vh.Expand(s.Var, 1+int(s.Var%50))}
+	// variants 0..2 share one body and differ in guardian-set index and signature list only (the same message signed
+	// again, e.g. a peer's copy replacing the node's own); 3..5 likewise with another body
+	bv := s.Var / 3
+	v := &vaa.VAA{Version: 1, GuardianSetIndex: uint32(s.Var % 3), Timestamp: time.Unix(int64(1000+bv), 0), Nonce: uint32(bv), Sequence: id.Sequence,
+		ConsistencyLevel: 1, EmitterChain: id.EmitterChain, TargetChain: id.TargetChain, EmitterAddress: id.EmitterAddress, Payload: vh.Expand(bv, 1+int(bv*17%50))}
 	nsig := 1 + int(s.Var%3)
 	for i := 0; i < nsig; i++ {
 		v.AddSignature(vh.Key(i), uint8(i))
